@@ -43,7 +43,11 @@ RULE = (
     "attribute runs (None, palette names incl. aliases registered with the (name, like_name) form, undefined names, "
     "AttrSpec objects of the active depth with every setting) over ASCII, spaces, CJK wide, combining, emoji, DEC "
     "line drawing (charset '0' runs outside utf-8) and C0 controls, completed to the width by a fill character "
-    "(space / narrow / wide / line drawing). html: one canvas spec x colours x palette x cursor. Non-trivial "
+    "(space / narrow / wide / line drawing). Two enumerations of such histories run first: draw / props / redraw "
+    "for every display setting x the palette field carrying it (basic, mono, high-colour) x every ordered pair of "
+    "colour depths x palette registered before or after set_terminal_properties x back_color_erase (1800), and "
+    "draw / enc / redraw / enc / redraw / mod for every starting encoding x every ordered pair of encodings "
+    "switched to x alternate or partial-screen mode (150). html: one canvas spec x colours x palette x cursor. Non-trivial "
     "(history): two consecutive draws at the same size with no clear in between that have at least one unchanged "
     "and one changed row, or a draw whose bottom-right cell is printed (not erased), or a wide character in the "
     "last two columns. Non-trivial (html): cursor present and at least two attribute runs in its row, or a "
@@ -1146,10 +1150,75 @@ def _html_classes(case):
 
 
 # ---------------------------------------------------------------------------------------------
+# deterministic sweeps (ordinary history cases, enumerated instead of drawn)
+
+_SWEEP_ROWS = [
+    {"segs": [["a1", "ab"]], "fill": ["a1", " "]},  # trailing blanks in the named attribute (erase shortcut)
+    {"segs": [], "fill": ["a1", " "]},  # a blank row in it
+    {"segs": [[None, "c"]], "fill": ["a1", "x"]},  # printed cells in it, bottom-right cell included
+]
+
+
+def _palette_sweep():
+    """every display setting x the palette field that carries it (basic foreground / mono / high-colour foreground)
+    x every pair of colour depths (the one in force at the first draw, the one set_terminal_properties changes to
+    before the second) x palette registered before / after the first set_terminal_properties x back_color_erase"""
+    for bit in range(len(SETTINGS)):
+        for field in ("basic", "mono", "high"):
+            m = 1 << bit
+            entry = ["a1", 3, 0, m if field == "basic" else 0, m if field == "mono" else None,
+                     0 if field == "high" else None, None, m if field == "high" else 0]
+            for d0 in DEPTHS:
+                for d1 in DEPTHS:
+                    for props_first in (True, False):
+                        for bce in (True, False):
+                            yield {
+                                "enc": "utf-8", "cols": 5, "rows": 3, "colors": d0, "bib": False, "bce": bce,
+                                "term_bce": True, "alt": True, "props_first": props_first, "palette": [entry],
+                                "steps": [["draw", {"rows": _SWEEP_ROWS, "cursor": None}],
+                                          ["props", d1, d0 == d1],  # (same depth: bright_is_bold changes instead)
+                                          ["same"]],
+                            }
+
+
+_ENC_SWEEP_ROWS = [
+    {"segs": [[None, "a┌─┐"]], "fill": [None, " "]},
+    {"segs": [["a1", "漢é"]], "fill": ["a1", "─"]},
+    {"segs": [[None, "x"]], "fill": [None, "│"]},
+]
+
+
+def _encoding_sweep():
+    """every starting encoding x every ordered pair of encodings switched to afterwards (a draw under each of the
+    three, the last one an incremental one) x alternate buffer / partial-screen mode; the rows hold ASCII, line
+    drawing, a wide and a Latin-1 character (whatever the encoding of the moment has of them)"""
+    for e0 in ("utf-8", "iso8859-1", "euc-jp"):
+        for e1 in SWITCH_ENCS:
+            for e2 in SWITCH_ENCS:
+                for alt in (True, False):
+                    yield {
+                        "enc": e0, "cols": 6, "rows": 3, "colors": 16, "bib": True, "bce": True, "term_bce": True,
+                        "alt": alt, "props_first": True, "palette": [["a1", 3, 4, 0, None, None, None, 0]],
+                        "steps": [["draw", {"rows": _ENC_SWEEP_ROWS, "cursor": [0, 0]}],
+                                  ["enc", e1], ["same"],
+                                  ["enc", e2], ["same"],
+                                  ["mod", {"edits": [[0, {"segs": [["a1", "└┘b"]], "fill": [None, "─"]}]],
+                                           "cursor": [1, 1]}]],
+                    }
+
+
+# ---------------------------------------------------------------------------------------------
 # campaign
 
 
 def shard(ctx):
+    ctx.sweep("history", _palette_sweep(), nontrivial=_history_nontrivial, classify=_history_classes,
+              exhaustive_name="history: setting x palette field x depth pair x registration order x bce")
+    if ctx.failure is None:
+        ctx.sweep("history", _encoding_sweep(), nontrivial=_history_nontrivial, classify=_history_classes,
+                  exhaustive_name="history: starting encoding x two encoding switches x screen mode")
+    if ctx.failure is not None:
+        return
     n_hist = ctx.scale(240, 8000)
     n_wid = ctx.scale(50, 1500)
     n_part = ctx.scale(60, 1000)
